@@ -3,53 +3,7 @@ use crate::elem::*;
 use mc_core::{catch, Cell, Outcome};
 use tevec::prelude::*;
 
-/// A mapping operation with its parameters; values are logical (`X`) and encoded per element type.
-#[derive(Clone, Debug, PartialEq)]
-pub enum MapOp {
-    Shift(i32, X),
-    VShift(i32, Option<X>),
-    VDiff(i32, Option<X>),
-    VPct(i32),
-    Ffill(Option<X>),
-    Bfill(Option<X>),
-    Fill(X),
-    /// mask = "element equals zero"
-    FfillMask0(Option<X>),
-    BfillMask0(Option<X>),
-    FillMask0(X),
-    VClip(X, X),
-    Abs,
-    VAbs,
-    VRank(bool, bool),
-    VPartition(usize, bool, bool),
-    VArgPartition(usize, bool, bool),
-}
-
-impl MapOp {
-    pub fn name(&self) -> String {
-        match self {
-            MapOp::Shift(..) => "shift".into(),
-            MapOp::VShift(..) => "vshift".into(),
-            MapOp::VDiff(..) => "vdiff".into(),
-            MapOp::VPct(..) => "vpct_change".into(),
-            MapOp::Ffill(..) => "ffill".into(),
-            MapOp::Bfill(..) => "bfill".into(),
-            MapOp::Fill(..) => "fill".into(),
-            MapOp::FfillMask0(..) => "ffill_mask".into(),
-            MapOp::BfillMask0(..) => "bfill_mask".into(),
-            MapOp::FillMask0(..) => "fill_mask".into(),
-            MapOp::VClip(..) => "vclip".into(),
-            MapOp::Abs => "abs".into(),
-            MapOp::VAbs => "vabs".into(),
-            MapOp::VRank(p, r) => format!("vrank(pct={p},rev={r})"),
-            MapOp::VPartition(_, s, r) => format!("vpartition(sort={s},rev={r})"),
-            MapOp::VArgPartition(_, s, r) => format!("varg_partition(sort={s},rev={r})"),
-        }
-    }
-    pub fn show(&self) -> String {
-        format!("{self:?}")
-    }
-}
+pub use mc_ref::map::MapOp;
 
 /// What a trusted-length iterator did when consumed by plain safe iteration.
 #[derive(Clone, Debug)]
